@@ -260,6 +260,19 @@ func (r *ServerRig) Dial(ctx context.Context, f string, inprocBuf int, tcpCfg *l
 	return nil, fmt.Errorf("unknown flavour %s", f)
 }
 
+// DialVia dials the given address (a proxy in front of the server) with the flavour's client transport.
+func DialVia(ctx context.Context, f string, addr net.Addr) (lime.Transport, error) {
+	switch f {
+	case TCP, TLS:
+		return lime.DialTcp(ctx, addr, &lime.TCPConfig{TLSConfig: ClientTLS()})
+	case WS:
+		return lime.DialWebsocket(ctx, "ws://"+addr.String(), nil, nil)
+	case WSS:
+		return lime.DialWebsocket(ctx, "wss://"+addr.String(), nil, ClientTLS())
+	}
+	return nil, fmt.Errorf("no proxied dial for flavour %s", f)
+}
+
 // EncryptSelector returns the client selector appropriate for the flavour.
 func EncryptSelector(f string) lime.EncryptionSelector {
 	switch f {
